@@ -515,3 +515,11 @@ CHECKS["C07"]["text"] += (
     "root indices and with the filter) and TLC checks that every definition "
     "addresses the file's own events (composed child maps: holds; pinned "
     "commit: counter-example).")
+CHECKS["C11"]["text"] += (
+    " Routes include a configuration file with capitalised key names; "
+    "string payloads include texts that look like a number or a truth "
+    "value.")
+CHECKS["C13"]["text"] += (
+    " The fluorescence channel of the measurement (1 with traces, 2, 3) is "
+    "a dimension for the fluorescence corruptions (incl. a missing "
+    "mandatory fluorescence key).")
